@@ -507,6 +507,7 @@ class Gen:
         self.rng = rng
         self.next_id = 1
         self.safe_headers = safe_headers      # oracle domain: no Content-Length etc. set by programs
+        self.safe_names = ['X-A', 'X-B', 'ETag', 'x_y', 'Content-Type', 'Allow', 'Last-Modified']
         self.odd_status = odd_status
 
     def nid(self):
@@ -531,7 +532,7 @@ class Gen:
 
     def hname(self):
         if self.safe_headers:
-            return self.rng.choice(['X-A', 'X-B', 'ETag', 'x_y', 'Content-Type', 'Allow', 'Last-Modified'])
+            return self.rng.choice(self.safe_names)
         return self.rng.choice(HNAMES)
 
     def rspec(self):
